@@ -749,6 +749,20 @@ class DocumentMapper:
             return ins_id
         return None
 
+    def insertion_text_around(self, ins_id: str, start_idx: int, end_idx: int) -> Tuple[str, int, int]:
+        """
+        The text of the pending insertion `ins_id` (its own characters: formatting markers and other
+        virtual text between its runs are not part of it), and how many of these characters lie
+        before `start_idx` and before `end_idx`.
+        """
+        spans = [s for s in self.spans if s.ins_id == ins_id]
+        text = "".join(s.text for s in spans)
+
+        def chars_before(idx: int) -> int:
+            return sum(min(max(idx - s.start, 0), len(s.text)) for s in spans)
+
+        return text, chars_before(start_idx), chars_before(end_idx)
+
     def get_context_at_range(self, start_idx: int, end_idx: int) -> Optional[TextSpan]:
         real_spans = [s for s in self.spans if s.run and s.end > start_idx and s.start < end_idx]
         if real_spans:
